@@ -329,6 +329,9 @@ def main():
         tr = {"constants": 0, "failed": {}, "anchors": [], "shape": {}}
     if tr.get("failed"):
         broken.append("translator could not evaluate: " + ", ".join(sorted(tr["failed"])))
+    if tr.get("lost_constants"):
+        broken.append("constants no longer defined in the source (last known values used so the search can run): " +
+                      ", ".join(tr["lost_constants"][:8]))
     lost = [a["name"] for a in tr.get("anchors", []) if not a["matched"]]
     if lost:
         notes.append("anchors lost (fallback values used, tie rests on correspondence): " + ", ".join(lost))
